@@ -110,9 +110,9 @@ theorem pushScalar_np (ext : Ext) (he : ExtNP ext) : ∀ (b : B) (x : SVal), NPI
     simp only []
     split
     · split
-      · exact bind_no_panic _ _ (pushScalar_np ext he idx _ h.1) (fun _ => rfl)
-      · refine bind_no_panic _ _ (pushScalar_np ext he vals _ h.2) (fun _ => ?_)
-        exact bind_no_panic _ _ (pushScalar_np ext he idx _ h.1) (fun _ => rfl)
+      · exact bind_no_panic _ _ ((ctx_isPanic _ _).trans (pushScalar_np ext he idx _ h.1)) (fun _ => rfl)
+      · refine bind_no_panic _ _ ((ctx_isPanic _ _).trans (pushScalar_np ext he vals _ h.2)) (fun _ => ?_)
+        exact bind_no_panic _ _ ((ctx_isPanic _ _).trans (pushScalar_np ext he idx _ h.1)) (fun _ => rfl)
     · rfl
   | .list _ _ _ _ _ _, x, _ => by unfold pushScalar; rfl
   | .fixedSizeList _ _ _ _ _ _ _, x, _ => by unfold pushScalar; rfl
